@@ -109,6 +109,8 @@ fn ty_of(a: &ArgSpec) -> Option<Ty> {
                 IntW::U32 => Ty::U32,
                 IntW::U64 => Ty::U64,
             },
+            // the enum type is only read by the language probe
+            ValParser::EnumVp => return None,
             ValParser::Bool | ValParser::Boolish => Ty::Bool,
             ValParser::Edge(k) => {
                 if edge_language(*k).0 {
@@ -524,6 +526,16 @@ fn lang_candidate(rng: &mut Rng, a: &ArgSpec) -> B {
                 _ => B::s(&n.to_string()),
             }
         }
+        ValParser::EnumVp => {
+            let base = rng.pick(SIM_ENUM_LANGUAGE).0.to_string();
+            match rng.below(6) {
+                0 => B::s(&flip_case(&base, rng)),
+                1 => B::s(&base.to_uppercase()),
+                2 => B::s(&format!("{base}x")),
+                3 => B::s(*rng.pick(&["", "HiddenOne", "Fast", "hidden_one", "sl"])),
+                _ => B::s(&base),
+            }
+        }
         ValParser::Bool => B::s(*rng.pick(&["true", "false", "TRUE", "True", "t", "f", "1", "0", "yes", "", " true"])),
         ValParser::Boolish => B::s(*rng.pick(&["y", "YES", "t", "True", "ON", "1", "n", "No", "F", "false", "oFF", "0", "2", "maybe", "", "on "])),
         ValParser::Possible(pvs) => {
@@ -584,6 +596,25 @@ fn lang_probe(a: &ArgSpec, cand: &B, via: u8) -> Option<String> {
         Ok(r) => r,
         Err(p) => return Some(format!("parsing candidate {} for {:?} panicked: {} at {}", cand.esc(), a.parser, p.msg, p.loc)),
     };
+    if iso.parser == ValParser::EnumVp {
+        // the typed value is the variant whose name or alias was spelled
+        let want = std::str::from_utf8(&cand.0).ok().and_then(|t| SIM_ENUM_LANGUAGE.iter().find(|(n, _)| if iso.ignore_case { n.eq_ignore_ascii_case(t) } else { *n == t })).map(|(_, v)| v.to_string());
+        return match (r, want) {
+            (Ok(m), Some(w)) => match m.try_get_one::<SimEnum>("probe") {
+                Ok(Some(v)) if format!("{v:?}") == w => None,
+                other => Some(format!("candidate {} for the enum value parser (ignore_case={}): typed value {:?}, the declared variant is {w}", cand.esc(), iso.ignore_case, other.map(|o| o.map(|v| format!("{v:?}"))))),
+            },
+            (Ok(_), None) => Some(format!("candidate {} is accepted by the enum value parser (ignore_case={}) but is no declared name or alias", cand.esc(), iso.ignore_case)),
+            (Err(e), Some(w)) => Some(format!("candidate {} is a declared name or alias of variant {w} (ignore_case={}) but the enum value parser rejects it with {:?}", cand.esc(), iso.ignore_case, e.kind())),
+            (Err(e), None) => {
+                if matches!(e.kind(), clap::error::ErrorKind::InvalidValue | clap::error::ErrorKind::ValueValidation | clap::error::ErrorKind::InvalidUtf8) {
+                    None
+                } else {
+                    Some(format!("candidate {} for the enum value parser: rejected with {:?}, which is not a value error", cand.esc(), e.kind()))
+                }
+            }
+        };
+    }
     let ty = ty_of(&iso)?;
     let want = if crate::c06::value_ok(&iso, &cand.0).is_ok() { canonical(&iso, ty, &cand.0) } else { None };
     match (r, want) {
@@ -772,7 +803,9 @@ fn exec_access(sc: &C04Sc, log: &mut Log, out: &mut Outcome) {
             }
             (IdSel::Arg(_), Some(_a)) => {
                 let own = own.unwrap();
-                let wrong = is_typed && ask != own && entry.as_ref().map(|e| !e.raw.iter().all(|g| g.is_empty())).unwrap_or(false);
+                // the argument's type is known from its value parser even when the entry holds no value at all
+                // (a bare `--opt` with num_args(0..)): a wrong type fails there too
+                let wrong = is_typed && ask != own && entry.is_some();
                 if wrong {
                     faults += 1;
                     out.count(if is_remove { "fault.wrong_type_remove" } else { "fault.wrong_type_get" });
